@@ -14,13 +14,13 @@ import (
 
 var rules = []*Rule{
 	{ID: "R1", Title: "MUST-FSYNC: durable before acknowledged", Props: []string{"C06", "C05", "C11", "C17"}, Run: ruleR1},
-	{ID: "R2", Title: "FS-ORDER: multi-step file protocols keep a recoverable order", Props: []string{"C05", "C11", "C02", "C01", "C17"}, Run: func(p *Prog) []Ob { return append(ruleR2(p), p.overrideTargetObligations()...) }},
+	{ID: "R2", Title: "FS-ORDER: multi-step file protocols keep a recoverable order", Props: []string{"C05", "C11", "C02", "C01", "C17", "C12"}, Run: func(p *Prog) []Ob { return append(append(ruleR2(p), p.overrideTargetObligations()...), p.removeRemovesLog()) }},
 	{ID: "R3", Title: "LOCKSET: every shared mutable field has a common guard", Props: []string{"C08"}, Run: func(p *Prog) []Ob { return append(ruleR3(p), ruleR3c(p)...) }},
 	{ID: "R6", Title: "SENTINEL-IDENTITY: compared sentinels arrive unwrapped and alive", Props: []string{"C03", "C04", "C09", "C10", "C12"}, Run: ruleR6},
 	{ID: "R7", Title: "TAXONOMY and GUARDS", Props: []string{"C04", "C03", "C07", "C09", "C10", "C11", "C12", "C14", "C19"}, Run: ruleR7},
 	{ID: "R8", Title: "KEY-EQUALITY: a hash hit is only a candidate", Props: []string{"C09", "C13", "C14", "C11"}, Run: ruleR8},
 	{ID: "R10", Title: "DECODER-VALIDATION: nothing is returned before it is checked", Props: []string{"C14", "C07"}, Run: ruleR10},
-	{ID: "R11", Title: "COPY-LOOP: every record read is accounted for", Props: []string{"C01", "C05", "C07", "C11", "C12", "C17"}, Run: ruleR11},
+	{ID: "R11", Title: "COPY-LOOP: every record read is accounted for", Props: []string{"C01", "C05", "C07", "C11", "C12", "C17"}, Run: func(p *Prog) []Ob { return append(ruleR11(p), p.deletedSizeVersion()...) }},
 	{ID: "R12", Title: "EFFECT-CONFINEMENT: who can change a log file", Props: []string{"C19", "C20"}, Run: ruleR12},
 	{ID: "R15", Title: "FLOCK-PAIRING", Props: []string{"C19"}, Run: ruleR15},
 	{ID: "R14", Title: "NOTIFY: publish-then-set, probe-under-token", Props: []string{"C18"}, Run: ruleR14},
@@ -31,7 +31,7 @@ var rules = []*Rule{
 	{ID: "R23", Title: "MULTI-DRIVER ACCOUNTING: a round's deletions are reported", Props: []string{"C12"}, Run: ruleR23},
 	{ID: "R17", Title: "OFFSET-ASSIGNMENT", Props: []string{"C02", "C01"}, Run: func(p *Prog) []Ob { return append(ruleR17(p), p.tailSurvivedObligations()...) }},
 	{ID: "R5", Title: "INUSE: the unload refcount protocol", Props: []string{"C08"}, Run: ruleR5},
-	{ID: "R18", Title: "SNAPSHOT-REVALIDATION", Props: []string{"C08", "C12"}, Run: ruleR18},
+	{ID: "R18", Title: "SNAPSHOT-REVALIDATION", Props: []string{"C08", "C12"}, Run: func(p *Prog) []Ob { return append(ruleR18(p), p.deleteSerialised()...) }},
 	{ID: "R20", Title: "READER-LIFETIME: destructive segment operations exclude readers", Props: []string{"C08"}, Run: ruleR20},
 	{ID: "R21", Title: "HEAD-SCAN-BOUND", Props: []string{"C08"}, Run: ruleR21},
 	{ID: "R9", Title: "FORMAT-TABLES: encoder = decoder = documented layout", Props: []string{"C13", "C17", "C11", "C09"}, Run: ruleR9},
@@ -42,6 +42,7 @@ var rules = []*Rule{
 	{ID: "R28", Title: "GET-EXACT", Props: []string{"C04"}, Run: ruleR28},
 	{ID: "R29", Title: "ITEM-DERIVATION", Props: []string{"C10", "C11"}, Run: ruleR29},
 	{ID: "R30", Title: "CLOCK-INDEPENDENCE", Props: []string{"C03", "C04", "C09", "C10", "C13", "C02"}, Run: ruleR30},
+	{ID: "R32", Title: "LAZY-LOG", Props: []string{"C14"}, Run: ruleR32},
 	{ID: "R4", Title: "LOCK-ORDER: acyclic acquisition graph, no re-acquisition", Props: []string{"C08"}, Run: ruleR4},
 }
 
